@@ -964,9 +964,6 @@ func (fr *Frame) execInstr(instr ssa.Instruction, st *State, pc T) T {
 			fr.allocHook(in, n, n, st, pc)
 		}
 		fr.set(in, Val{Typ: in.Type(), Ts: []T{ref}})
-	case *ssa.MakeChan:
-		// a channel is a fresh non-nil reference; its buffer and closedness are not modelled (receives are arbitrary)
-		fr.set(in, Val{Typ: in.Type(), Ts: []T{fr.alloc(st, pc, types.Typ[types.Int], "chan", false)}})
 	case *ssa.MapUpdate:
 		fr.mapUpdate(in, st, pc)
 	case *ssa.Lookup:
@@ -1002,6 +999,12 @@ func (fr *Frame) execInstr(instr ssa.Instruction, st *State, pc T) T {
 		fr.execNext(in, st, pc)
 	case *ssa.Select:
 		fr.execSelect(in, st, pc)
+	case *ssa.MakeChan:
+		// a fresh, open channel (closedness lives in the heap class K|chan|<element type>)
+		ref := fr.alloc(st, pc, types.Typ[types.Int], "chan", false)
+		ccl := e.classChanClosed(in.Type())
+		vc.heapSet(st, ccl, sortChanClosed, Sto(vc.heapGet(st, ccl, sortChanClosed), ref, False))
+		fr.set(in, Val{Typ: in.Type(), Ts: []T{ref}})
 	case *ssa.Send:
 		// event only
 	case *ssa.MultiConvert, *ssa.SliceToArrayPointer:
@@ -1629,6 +1632,20 @@ func (fr *Frame) execSelect(in *ssa.Select, st *State, pc T) {
 		lo = BV(-1, 64)
 	}
 	vc.assume(pc, And(app("bvsge", idx, lo), app("bvslt", idx, BV(int64(len(in.States)), 64))))
+	if !in.Blocking {
+		// a closed channel is always ready to receive: `default` is taken only if no receive case's channel is closed
+		for _, s := range in.States {
+			if s.Dir != types.RecvOnly {
+				continue
+			}
+			ch := fr.get(s.Chan)
+			if len(ch.Ts) != 1 {
+				continue
+			}
+			ccl := vc.E.classChanClosed(s.Chan.Type())
+			vc.assume(pc, Imp(Eq(idx, BV(-1, 64)), Not(Sel(vc.heapGet(st, ccl, sortChanClosed), ch.Ts[0]))))
+		}
+	}
 	vals := []Val{{Typ: tt.At(0).Type(), Ts: []T{idx}}, vc.freshVal("sel_ok", tt.At(1).Type())}
 	for i := 2; i < tt.Len(); i++ {
 		vals = append(vals, vc.freshVal("sel_recv", tt.At(i).Type()))
